@@ -129,6 +129,89 @@ def handleSlice : List String → String
     | _, _, _ => "bad-op"
   | _ => "bad-op"
 
+
+/-! ### slice programs: several slice variables over shared backing arrays ([]int) -/
+
+structure PState where
+  arrays : Arrays Int
+  vars : List Hdr
+  out : List (List Int)
+
+def progStep (σ : PState) (st : String) : Option PState :=
+  match st.splitOn ":" with
+  | ["mk", len, cap] =>
+    match len.toNat?, cap.toNat? with
+    | some l, some c =>
+      match makeSlice (0 : Int) σ.arrays l (some c) with
+      | .ok A h =>
+        let a := (List.range c).map fun i => if i < l then ((i : Int) + 1) else 0
+        some { σ with arrays := A.set h.arr a, vars := σ.vars ++ [h] }
+      | _ => none
+    | _, _ => none
+  | ["sub", a, lo, hi, mx] =>
+    match a.toNat?, lo.toInt?, optInt hi, optInt mx with
+    | some a, some lo, some hi, some mx =>
+      match σ.vars[a]? with
+      | some h => match subslice h lo hi mx with
+        | some r => some { σ with vars := σ.vars ++ [r] }
+        | none => none
+      | none => none
+    | _, _, _, _ => none
+  | ["clamp", v, n] =>
+    match v.toNat?, n.toInt? with
+    | some v, some n =>
+      match σ.vars[v]? with
+      | some h => match subslice h 0 (some n) (some n) with
+        | some r => some { σ with vars := σ.vars.set v r }
+        | none => none
+      | none => none
+    | _, _ => none
+  | ["app", a, vals] =>
+    match a.toNat?, parseIntList vals with
+    | some a, some vs =>
+      match σ.vars[a]? with
+      | some h => let g := append .typed 0 σ.arrays h vs
+                  some { σ with arrays := g.arrays, vars := σ.vars ++ [g.hdr] }
+      | none => none
+    | _, _ => none
+  | ["apps", a, b] =>
+    match a.toNat?, b.toNat? with
+    | some a, some b =>
+      match σ.vars[a]?, σ.vars[b]? with
+      | some h, some t => let g := appendSlice .typed 0 σ.arrays h t
+                          some { σ with arrays := g.arrays, vars := σ.vars ++ [g.hdr] }
+      | _, _ => none
+    | _, _ => none
+  | ["set", a, i, v] =>
+    match a.toNat?, i.toNat?, v.toInt? with
+    | some a, some i, some v =>
+      match σ.vars[a]? with
+      | some h => if i < h.len then
+                    some { σ with arrays := σ.arrays.set h.arr ((getArr σ.arrays h.arr).set (h.off + i) v) }
+                  else none
+      | none => none
+    | _, _, _ => none
+  | ["cpy", a, b] =>
+    match a.toNat?, b.toNat? with
+    | some a, some b =>
+      match σ.vars[a]?, σ.vars[b]? with
+      | some d, some s => let r := copySlice .typed σ.arrays d s
+                          some { σ with arrays := r.1, out := σ.out ++ [[(r.2 : Int)]] }
+      | _, _ => none
+    | _, _ => none
+  | ["dump", v] =>
+    match v.toNat? with
+    | some v => match σ.vars[v]? with
+      | some h => some { σ with out := σ.out ++ [((h.len : Int)) :: view σ.arrays h] }
+      | none => none
+    | none => none
+  | _ => none
+
+def runSliceProg (p : String) : String :=
+  match (p.splitOn ";").foldlM progStep { arrays := [], vars := [], out := [] } with
+  | some σ => if σ.out.isEmpty then "none" else ";".intercalate (σ.out.map intList)
+  | none => "bad-op"
+
 /-! ### heap topic -/
 open GV.Heap
 
@@ -176,7 +259,8 @@ def parseCtx : String → Option Ctx
   | "recv" => some .recv | "mapStore" => some .mapStore | "mapLoad" => some .mapLoad
   | "elemStore" => some .elemStore | "fieldStore" => some .fieldStore | "ptrStore" => some .ptrStore
   | "litElem" => some .litElem | "box" => some .box | "unbox" => some .unbox
-  | "recvValue" => some .recvValue | "methodValue" => some .methodValue | _ => none
+  | "recvValue" => some .recvValue | "methodValue" => some .methodValue
+  | "boundCall" => some .boundCall | "ifaceCall" => some .ifaceCall | _ => none
 
 /-- `ctx>ctx>x/path` -/
 def parseExpr (s : String) : Option Expr :=
@@ -246,6 +330,7 @@ where
     | _ + 1, _ => [[]]
 
 def handle : List String → String
+  | ["slice", "prog", p] => runSliceProg p
   | "slice" :: rest => handleSlice rest
   | "heap" :: rest => handleHeap rest
   | _ => "bad-topic"
